@@ -289,8 +289,8 @@ impl Check for C09 {
 
     fn runs(&self, tier: Tier) -> u64 {
         match tier {
-            Tier::Quick => 120_000,
-            Tier::Thorough => 6_000_000,
+            Tier::Quick => 300_000,
+            Tier::Thorough => 30_000_000,
         }
     }
 
@@ -309,9 +309,12 @@ impl Check for C09 {
                 data_seed: g.next_u64(),
             };
         }
-        let n = match g.below(8) {
-            0 => 0,
-            1 => 1,
+        let n = match g.below(40) {
+            0..=4 => 0,
+            5..=9 => 1,
+            // occasionally a large population (per-child state indexed by position, word-sized
+            // masks and the like only go wrong beyond 32 / 64 children)
+            10 => *g.pick(&[33usize, 64, 65, 66, 100, 130]),
             _ => g.urange(0, 8),
         };
         let plan = |g: &mut Xo, k: u64| -> Vec<usize> {
